@@ -289,6 +289,8 @@ class SourceFile:
         items = self.items if items is None else items
         sel = path[0]
         kind, _, rest = sel.partition(' ')
+        if sel.startswith('impl') and not sel[4:5].isalnum() and sel[4:5] != '_':
+            kind = 'impl'
         found = []
         for it in items:
             if kind == 'impl' and it.kind == 'impl':
